@@ -727,6 +727,45 @@ func installRoles(p *core.Prog) {
 			p.Method(e.rel, e.typ, e.name)
 		}
 	}
+	// readers of the layout index may come as a locking wrapper plus a worker
+	roleSet(p, ocidirRel, "OCIDir", "readIndex")
+}
+
+// roleSet returns the anchor (by name or by role) together with every other function of its package
+// and receiver that satisfies the anchor's role — a locking wrapper and the worker it was split into,
+// two variants of one reader. The siblings are known to canon() by the anchor's name.
+func roleSet(p *core.Prog, rel, typ, name string) map[*ssa.Function]bool {
+	out := map[*ssa.Function]bool{}
+	var f *ssa.Function
+	if typ == "" {
+		f = p.Func(rel, name)
+	} else {
+		f = p.Method(rel, typ, name)
+	}
+	if f != nil {
+		out[f] = true
+	}
+	for _, e := range roleTable {
+		if e.rel != rel || e.typ != typ || e.name != name {
+			continue
+		}
+		for _, g := range pkgFuncs(p, rel) {
+			if g.Parent() != nil || g.Synthetic != "" || out[g] {
+				continue
+			}
+			rn := recvNamed(g)
+			if (typ == "") != (rn == nil) || (rn != nil && core.TypeCanon(rn) != typ) || owned(e, g) {
+				continue
+			}
+			if e.role(p, g) {
+				out[g] = true
+				if _, has := roleAlias[g]; !has && g.Name() != name {
+					roleAlias[g] = name
+				}
+			}
+		}
+	}
+	return out
 }
 
 // owned: f carries the name of another entry of the table for the same package and receiver.
